@@ -20,7 +20,8 @@ from xsdata.utils.dates import (
 xml_duration_re = re.compile(
     r"^([-]?)P"
     r"(?:(\d+)Y)?(?:(\d+)M)?(?:(\d+)D)?"
-    r"(?:T(?:(\d+)H)?(?:(\d+)M)?(?:(\d+(\.\d+)?)S)?)?$"
+    r"(?:T(?:(\d+)H)?(?:(\d+)M)?(?:(\d+(\.\d+)?)S)?)?$",
+    re.ASCII,
 )
 
 DS_YEAR = 31556926.0
